@@ -1,7 +1,8 @@
 (** extraction of the C04 model: specifications (canonical exact rationals) and as-is transcriptions *)
 Require Import FastZ.
-From Dashu Require Import Base.Prelude Int.BitsSpec Ratio.RatArithModel Ratio.RatioAtoms Ratio.RatioBodiesModel Ratio.Reduce2WordsModel.
-From DashuGen Require Import RatioBodies.
+From Dashu Require Import Base.Prelude Int.BitsSpec Ratio.RatArithModel Ratio.RatioAtoms Ratio.RatioBodiesModel Ratio.Reduce2WordsModel
+  Ratio.RatioAtoms4 Ratio.RatioBodies4Model.
+From DashuGen Require Import RatioBodies RatioBodies4.
 Extraction "model.ml"
   canon invb veqb
   bin_spec dive_spec divreme_spec un_spec pow_spec int_spec mulsign_spec
@@ -16,4 +17,18 @@ Extraction "model.ml"
   gbin gxbin gdive gxdive gdivreme gxdivreme gint gxint gun gpow gmulsign gsplit gtrunc gfloor gceil ground heval_gen heval_xgen
   gen_reduce gen_RBig_from_parts gen_Relaxed_from_parts gen_RBig_from_parts_signed gen_Relaxed_from_parts_signed
   gen_RBig_is_zero gen_RBig_is_one gen_RBig_is_int gen_Relaxed_is_zero gen_Relaxed_is_one
-  from_int_asis from_float_asis from_float_spec gen_ratio_iter_is_a_module xfrom_parts_words.
+  from_int_asis from_float_asis from_float_spec gen_ratio_iter_is_a_module xfrom_parts_words
+  (* round 4: coq/gen/RatioBodies4.v (clone / clone_from, in-place operators, from_parts_const with its loop, parsers,
+     conversions, wrappers, serde) and the extended histories *)
+  gun4 gassign gxassign fpc_fuel gen_RBig_from_parts_const gen_Relaxed_from_parts_const
+  gen_RBig_from_str_radix gen_RBig_from_str gen_RBig_from_str_with_radix_prefix
+  gen_Relaxed_from_str_radix gen_Relaxed_from_str gen_Relaxed_from_str_with_radix_prefix parse_radix_spec parse_prefix_spec
+  gen_RBig_try_from_float gen_Relaxed_try_from_float
+  gen_IBig_try_from_RBig gen_UBig_try_from_RBig gen_IBig_try_from_Relaxed gen_UBig_try_from_Relaxed
+  gen_RBig_from_IBig gen_RBig_from_UBig gen_RBig_from_prim gen_Relaxed_from_IBig gen_Relaxed_from_UBig gen_Relaxed_from_prim
+  gen_serde_RBig_deserialize gen_serde_Relaxed_deserialize deserialize_spec
+  gen_RBig_clone gen_Relaxed_clone gen_RBig_clone_from gen_Relaxed_clone_from gen_RBig_default gen_Relaxed_default
+  gen_Relaxed_canonicalize gen_RBig_relax gen_RBig_pow gen_Relaxed_pow
+  gen_RBig_split_at_point gen_Relaxed_split_at_point gen_RBig_trunc gen_Relaxed_trunc gen_RBig_floor gen_Relaxed_floor
+  gen_RBig_ceil gen_Relaxed_ceil gen_RBig_round gen_Relaxed_round
+  heval4_spec heval4_gen heval4_xgen hstep4.
